@@ -25,6 +25,12 @@ CHECKS["C01"] = (
     "flattened: frequency_moment(n), n=0..4, equals the trapezoid over in-band nodes with NaN as 0; m0/m1/m2, Hm0, "
     "Tm01, Tm02 satisfy their definitions; linearity through multiply/__add__/__sub__/__neg__; for e>=0 "
     "m1^2<=m0*m2 and the period bounds; 2D moments equal those of sum_theta E*dtheta.", "DESIGN.md#c01", "")
+CHECKS["C04"] = (
+    "For every non-negative symbolic e(f) (ties allowed, structural NaN placements), symbolic band, nf<=4 (thorough 6), "
+    "batches with independent symbols: peak_index is in the band, maximal over the band and strictly above every earlier "
+    "in-band value, per batch member; peak frequency/period/angular frequency/direction/spread are the grid/per-frequency "
+    "values at that index; peak_wavenumber and peak_wave_speed call the dispersion solver (uninterpreted K) with "
+    "(2*pi*f_peak, depth or +inf for missing depth); 2D spectra use e(f)=sum E dtheta.", "DESIGN.md#c04", "")
 NA = {}
 
 ALL = [f"C{i:02d}" for i in range(1, 21)]
